@@ -12,8 +12,10 @@ neighbour returned by within(working_points[m], radius) (itself included), with 
 and the tree built from working_points; mesh samples carry the normal of the very triangle the point was computed on, uniform
 samples are affine combinations whose weights sum to one identically (polynomial identity), sample_poisson thins
 sample_dense(radius/2) and maps the kept indices back into that same dense set; point_order_direction and
-Curve2::from_points_ccw use the same index-ascent vote with the same threshold."""
-NOT_DECIDED = "exactness of kiddo, coverage/maximality of the Poisson selection, area proportionality of uniform sampling, hull construction (parry), ball pivoting; for the hull diameter only exhaustiveness of the pair scan is decided"
+Curve2::from_points_ccw use the same index-ascent vote with the same threshold.
+No caller of the radius search passes a squared quantity (the wrapper squares), the ball-pivot neighbourhood is 2*radius; sample_uniform keeps ONE cumulative-area
+entry per triangle (position = triangle id) and picks the search position of a draw in [0, total area)."""
+NOT_DECIDED = "exactness of kiddo, coverage/maximality of the Poisson selection, the distribution of uniform sampling (only the table/id bookkeeping is decided), hull construction (parry), the pivoting walk itself; for the hull diameter only exhaustiveness of the pair scan is decided"
 ASSUMPTIONS = ["kiddo SquaredEuclidean queries take and return squared distances"]
 
 KD = 'common::kd_tree'
